@@ -26,9 +26,11 @@ structure ClBook where
 
 /-- suite `closer`: header sleep= half= req= -/
 def suiteCloser (kvs : List (String × String)) (lines : List (String × String)) : List String :=
-  let sleep := kvInt kvs "sleep" 5000000000
-  let half := kvInt kvs "half" 1
-  let req := kvInt kvs "req" 1
+  -- a setting left unset (0) at construction is the documented default: 5 s, 1 half-open probe, 1 required success
+  let orDefault (v d : Int) : Int := if v == 0 then d else v
+  let sleep := orDefault (kvInt kvs "sleep" 5000000000) 5000000000
+  let half := orDefault (kvInt kvs "half" 1) 1
+  let req := orDefault (kvInt kvs "req" 1) 1
   match lines.mapM (fun l => parseClOp l.1) with
   | none => lines.map fun _ => "bad-op\t-"
   | some ops =>
